@@ -218,7 +218,9 @@ def corpus(adapter=AD1, tag="r"):
                         qual = q + ("I" * len(adapter) if has else "")
                         # some IDs contain ':Y:' themselves: only the comment field carries the CASAVA flag
                         ident = f"{tag}{k}:Y:z" if (k % 11 == 0) else f"{tag}{k}"
-                        recs.append((f"{ident} 1:{casava}:0", seq, qual))
+                        # some headers carry a further field after the CASAVA field, flagged the other way round
+                        extra = f" 7:{'N' if casava == 'Y' else 'Y'}:0" if k % 7 == 3 else ""
+                        recs.append((f"{ident} 1:{casava}:0{extra}", seq, qual))
                         k += 1
     return recs
 
